@@ -152,6 +152,9 @@ pub enum WOp {
     Digits(u8, u8),
     /// buf_write_ptr(len) + fill + advance_unchecked(len) if non-null
     Ptr(usize),
+    /// `buf_write_ptr(len)`, then only `used` of the reserved bytes are written and advanced over
+    /// (what the integer writers do with their MAX_LEN reservation)
+    PtrPartial(usize, usize),
     Flush,
     FlushDefer,
     Check,
@@ -282,6 +285,23 @@ fn apply(w: &mut World, op: &WOp) -> OpResult {
                 OpResult::Ptr { null: false }
             }
         }
+        WOp::PtrPartial(len, used) => {
+            let st = writer.verif_state();
+            let p = writer.buf_write_ptr(*len);
+            if p.is_null() {
+                OpResult::Ptr { null: true }
+            } else if *len > st.capacity - st.len {
+                OpResult::Ptr { null: false }
+            } else {
+                let data = next_bytes(stream, *used);
+                stream.extend_from_slice(&data);
+                unsafe {
+                    std::ptr::copy_nonoverlapping(data.as_ptr(), p, *used);
+                    writer.advance_unchecked(*used);
+                }
+                OpResult::Ptr { null: false }
+            }
+        }
         WOp::Flush => OpResult::Io(writer.flush().map_err(|e| e.to_string())),
         WOp::FlushDefer => {
             writer.flush_defer_err();
@@ -365,7 +385,7 @@ fn oracle(cfg: &Cfg, mode: Mode, w: &mut World, op: &WOp, b: &Before, res: &OpRe
                 sink.failed_unreported = false;
             }
         }
-        (WOp::Ptr(len), OpResult::Ptr { null }) => {
+        (WOp::Ptr(len) | WOp::PtrPartial(len, _), OpResult::Ptr { null }) => {
             let free = b.capacity - b.len;
             if *null != (*len > free) {
                 p.push(("null-ptr", format!("buf_write_ptr({len}) returned {} with {free} bytes of spare capacity", if *null { "null" } else { "a pointer" })));
@@ -561,6 +581,11 @@ fn alphabet(cfg: &Cfg, mode: Mode, w: &World, tier: Tier) -> Vec<WOp> {
     for l in [0usize, 1, free, free + 1, usize::MAX, usize::MAX / 2 + 1, (usize::MAX - st.len).wrapping_add(1), usize::MAX - st.len] {
         ops.push(WOp::Ptr(l));
     }
+    for (l, used) in [(2usize, 1usize), (free, free / 2), (free, 0), (8, 3)] {
+        if used <= l && l <= free {
+            ops.push(WOp::PtrPartial(l, used));
+        }
+    }
     ops.sort_by_key(|o| format!("{o:?}"));
     ops.dedup();
     let _ = mode;
@@ -624,7 +649,7 @@ fn op_class(op: &WOp) -> &'static str {
         WOp::WriteAll(_) => "write_all",
         WOp::WriteDefer(_) => "write_all_defer_err",
         WOp::Digits(..) => "ascii_digits",
-        WOp::Ptr(_) => "buf_write_ptr",
+        WOp::Ptr(_) | WOp::PtrPartial(..) => "buf_write_ptr",
         WOp::Flush => "flush",
         WOp::FlushDefer => "flush_defer_err",
         WOp::Check => "check_io_error",
@@ -663,6 +688,7 @@ fn op_json(op: &WOp) -> Value {
         WOp::WriteDefer(l) => json!(["write_all_defer_err", l]),
         WOp::Digits(t, v) => json!(["ascii_digits", t, v, INT_TYPES[*t as usize]]),
         WOp::Ptr(l) => json!(["buf_write_ptr", l.to_string()]),
+        WOp::PtrPartial(l, u) => json!(["buf_write_ptr_partial", l, u]),
         WOp::Flush => json!(["flush"]),
         WOp::FlushDefer => json!(["flush_defer_err"]),
         WOp::Check => json!(["check_io_error"]),
@@ -676,6 +702,7 @@ fn op_from_json(v: &Value) -> WOp {
         "write_all" => WOp::WriteAll(a(1)),
         "write_all_defer_err" => WOp::WriteDefer(a(1)),
         "ascii_digits" => WOp::Digits(a(1) as u8, a(2) as u8),
+        "buf_write_ptr_partial" => WOp::PtrPartial(a(1), a(2)),
         "buf_write_ptr" => WOp::Ptr(v[1].as_str().map_or_else(|| a(1), |t| t.parse().unwrap())),
         "flush" => WOp::Flush,
         "flush_defer_err" => WOp::FlushDefer,
